@@ -199,7 +199,7 @@ where
                 while i < n {
                     f(i, rng::derive(seed, stream, i), &mut r);
                     // stop early once a thread has plenty of witnesses
-                    if r.violations.len() >= 12 {
+                    if r.violations.len() >= 45 {
                         break;
                     }
                     i += threads as u64;
